@@ -61,14 +61,9 @@ func (d *deduplicator) notifyDKGStarted(
 	cacheKey := newDKGSeed.Text(16)
 	// If the key is not in the cache, that means the seed was not handled
 	// yet and the client should proceed with the execution.
-	if !d.dkgSeedCache.Has(cacheKey) {
-		d.dkgSeedCache.Add(cacheKey)
-		return true
-	}
-
-	// Otherwise, the DKG seed is a duplicate and the client should not proceed
-	// with the execution.
-	return false
+	// Add is atomic: it reports whether the key was absent and has just been
+	// inserted, so exactly one of several concurrent deliveries proceeds.
+	return d.dkgSeedCache.Add(cacheKey)
 }
 
 // notifyDKGResultSubmitted notifies the client wants to start some actions
@@ -81,20 +76,17 @@ func (d *deduplicator) notifyDKGResultSubmitted(
 ) bool {
 	d.dkgResultHashCache.Sweep()
 
-	cacheKey := newDKGResultSeed.Text(16) +
-		hex.EncodeToString(newDKGResultHash[:]) +
-		strconv.Itoa(int(newDKGResultBlock))
+	// The fields are of variable length so they must be separated; otherwise
+	// different (seed, hash, block) triples can produce the same key.
+	cacheKey := newDKGResultSeed.Text(16) + "-" +
+		hex.EncodeToString(newDKGResultHash[:]) + "-" +
+		strconv.FormatUint(newDKGResultBlock, 10)
 
 	// If the key is not in the cache, that means the result was not handled
 	// yet and the client should proceed with the execution.
-	if !d.dkgResultHashCache.Has(cacheKey) {
-		d.dkgResultHashCache.Add(cacheKey)
-		return true
-	}
-
-	// Otherwise, the DKG result is a duplicate and the client should not
-	// proceed with the execution.
-	return false
+	// Add is atomic: it reports whether the key was absent and has just been
+	// inserted, so exactly one of several concurrent deliveries proceeds.
+	return d.dkgResultHashCache.Add(cacheKey)
 }
 
 func (d *deduplicator) notifyWalletClosed(
@@ -107,12 +99,7 @@ func (d *deduplicator) notifyWalletClosed(
 
 	// If the key is not in the cache, that means the wallet closure was not
 	// handled yet and the client should proceed with the execution.
-	if !d.walletClosedCache.Has(cacheKey) {
-		d.walletClosedCache.Add(cacheKey)
-		return true
-	}
-
-	// Otherwise, the wallet closure is a duplicate and the client should not
-	// proceed with the execution.
-	return false
+	// Add is atomic: it reports whether the key was absent and has just been
+	// inserted, so exactly one of several concurrent deliveries proceeds.
+	return d.walletClosedCache.Add(cacheKey)
 }
